@@ -32,6 +32,7 @@ type caseCfg struct {
 	reuseport      bool
 	udp            bool
 	sndbuf         int
+	wbufcap        int // WithWriteBufferCap (0 = default)
 	pClose         int // per mille
 	pShutdown      int
 	pOpenReply     int // percent
@@ -137,7 +138,7 @@ func genCfg(rnd *tr.Rand, focus string) *caseCfg {
 			c.inject = []inject{{name: "wr", index: 2, kind: "epipe", cid: -1}}
 		case "et-backlog":
 			// edge-triggered, more than IOV_MAX queued chunks behind a backlog: every batch must be followed up
-			c.et, c.sndbuf = true, 4096
+			c.et, c.sndbuf, c.wbufcap = true, 4096, 1024
 		case "shutdown-sweep":
 			c.maxConns = 3
 		case "register-fails":
@@ -299,6 +300,9 @@ func runCase(w *tr.Writer, seed uint64, idx int, focus string) {
 		addr, dialNet, dialAddr = fmt.Sprintf("tcp://127.0.0.1:%d", port), "tcp", fmt.Sprintf("127.0.0.1:%d", port)
 	}
 	opts := []gnet.Option{gnet.WithNumEventLoop(cfg.loops), gnet.WithReadBufferCap(cfg.bufcap), gnet.WithReusePort(cfg.reuseport)}
+	if cfg.wbufcap > 0 {
+		opts = append(opts, gnet.WithWriteBufferCap(cfg.wbufcap))
+	}
 	if cfg.et {
 		opts = append(opts, gnet.WithEdgeTriggeredIO(true))
 	}
